@@ -222,7 +222,7 @@ func (ex *exampleValidator) validateExampleInResponse(resp *spec.Response, respo
 		if response.Schema != nil {
 			if example, ok := response.Examples["application/json"]; ok {
 				res.MergeAsWarnings(
-					newSchemaValidator(response.Schema, s.spec.Spec(), path+".examples", s.KnownFormats, s.schemaOptions).Validate(example),
+					newSchemaValidator(response.Schema, s.spec.Spec(), path+".examples", s.KnownFormats, ex.schemaOptions).Validate(example),
 				)
 			} else {
 				// TODO: validate other media types too
